@@ -16,7 +16,10 @@ lines (values: ints in decimal, floats as `f<hex IEEE pattern at the width of th
   C18 bswap   <cls> <bits> <fmt> <start> <end> <rep>  -> ok <repeats> <bits> | err   (fmt: None | i:N | l:a,b | s:<str>)
   C18 arr     <dtype> <vals>                          -> ok <hex> | err      Array(dtype, vals).tobytes()
   C18 alist   <dtype> <bits>                          -> ok <vals> | err     Array(dtype, bits).tolist()
-  C18 aswap   <dtype> <bits>                          -> ok <bits> | err     Array(dtype, bits).byteswap(); .data
+  C18 aswap   <dtype> <bits> [<code>]                 -> ok <bits> | err     Array(dtype, bits).byteswap(); .data   (any dtype family;
+                                                        with <code> the bits are struct.pack('>' + k*code, …): result = '<' encoding)
+  C18 packm   <fmt> <vals>   /   C18 unpackm <fmt> <hex>                       formats with N* multipliers, brackets and commas
+                                                        around struct-style tokens ('2*<hB', '2*(<hB,>q)', '<b,3*>bHq')
   C18 aext    <dtype> <pre> <typecode> <itemsize> <vals> -> ok <bits> <vals> | err
                                                         a = Array(dtype, pre); a.extend(array.array(typecode, vals)); data, tolist
 The property names no exception class: every exception is `err`.
@@ -140,6 +143,59 @@ def dtype_spec(dt: str):
     return k, (bits // 8 if bits % 8 == 0 else None), o, bits
 
 
+def dtype_bits(dt: str):
+    """Bit length of one item of an Array dtype string, from bitstring's documentation of the dtype families
+    (bytesN: N bytes; hexN / octN / binN / bitsN / uintN / intN / floatN: N bits); None = not a valid Array dtype."""
+    sp = dtype_spec(dt)
+    if sp is not None:
+        k, n, o, bl = sp
+        if bl == 0 or (k == "f" and bl not in (16, 32, 64)) or (n is None and re.search(r"(be|le|ne)\d", dt)):
+            return None
+        return bl
+    m = re.fullmatch(r"(bytes|hex|oct|bin|bits|bool)(\d+)", dt)
+    if not m:
+        return None
+    fam, n = m.group(1), int(m.group(2))
+    if n == 0 or (fam == "hex" and n % 4) or (fam == "oct" and n % 3) or (fam == "bool" and n != 1):
+        return None
+    return 8 * n if fam == "bytes" else n
+
+
+def ref_tokens(fmt: str):
+    """The struct-style tokens a format with multipliers stands for, written out: '2*(<h,3*>B)' -> ['<h', '>B', '>B', '>B',
+    '<h', …].  Independent recursive-descent reading of the documented syntax `N*token`, `N*(…)`, `a, b`."""
+    s = "".join(fmt.split())
+
+    def seq(i):
+        out = []
+        while True:
+            j = i
+            while j < len(s) and s[j].isdigit():
+                j += 1
+            n = 1
+            if j < len(s) and s[j] == "*" and j > i:
+                n, i = int(s[i:j]), j + 1
+            if i < len(s) and s[i] == "(":
+                inner, i = seq(i + 1)
+                assert s[i] == ")"
+                i += 1
+                out += inner * n
+            else:
+                j = i
+                while j < len(s) and s[j] not in ",()":
+                    j += 1
+                if j > i:
+                    out += [s[i:j]] * n
+                i = j
+            if i < len(s) and s[i] == ",":
+                i += 1
+                continue
+            return out, i
+    toks, i = seq(0)
+    assert i == len(s), (fmt, i)
+    return toks
+
+
 def ref_item_bytes(v, kind, size, order) -> bytes:
     if kind == "f":
         return struct.pack(("<" if order == "little" else ">") + FCODE[size], v)
@@ -199,6 +255,26 @@ def execute(line: str):
             s.pos = 0
             extra["readlist"] = any_err(lambda: (s.readlist(fmt), s.pos), lambda r: canon_list(r[0], sizes) + " " + str(r[1]))
             extra["listfmt"] = any_err(lambda: bitstring.pack([fmt], *vals).bytes, hexwire)
+        return out, extra
+    if op in ("packm", "unpackm"):
+        fmt = f[2]
+        codes = [c for t in ref_tokens(fmt) for c in expand(t)[1]]
+        specs = [STD.get(c, ("s", 1)) for c in codes]
+        sizes = [sp[1] for sp in specs]
+        if op == "packm":
+            vals = vals_of_wire(f[3], specs)
+            out = any_err(lambda: bitstring.pack(fmt, *vals).bytes, hexwire)
+            extra["again"] = any_err(lambda: bitstring.pack(fmt, *vals).bytes, hexwire)
+            if out.startswith("ok"):
+                sp = bitstring.pack(fmt, *vals)
+                extra["unpack"] = any_err(lambda: sp.unpack(fmt), lambda v: canon_list(v, sizes))
+        else:
+            data = unhex(f[3])
+            b = Bits(bytes=data)
+            out = any_err(lambda: b.unpack(fmt), lambda v: canon_list(v, sizes))
+            extra["again"] = any_err(lambda: b.unpack(fmt), lambda v: canon_list(v, sizes))
+            s_ = ConstBitStream(bytes=data)
+            extra["readlist"] = any_err(lambda: s_.readlist(fmt), lambda v: canon_list(v, sizes))
         return out, extra
     if op == "packl":
         fmts = f[2].split(";")
@@ -340,8 +416,7 @@ def execute(line: str):
         out = any_err(run, lambda a: wire(a.data))
         if out.startswith("ok"):
             a = run()
-            before = bitstring.Array(dt, mk("BitArray", bits)).tolist()
-            extra["before_exact"] = repr(exact(before))
+            extra["before_exact"] = any_err(lambda: bitstring.Array(dt, mk("BitArray", bits)).tolist(), lambda v: repr(exact(v)))[3:]
             opp = _opposite(dt)
             if opp:
                 extra["opp_exact"] = any_err(lambda: bitstring.Array(opp, a.data).tolist(), lambda v: repr(exact(v)))
@@ -480,6 +555,42 @@ def oracle(line: str, out: str, extra: dict):
                 return f"readlist({fmt!r}) gives {extra['readlist']}, expected {want} {8 * len(ref)}"
             if extra["listfmt"] != exp:
                 return f"pack([{fmt!r}], …) gives {extra['listfmt']}, pack({fmt!r}, …) gives {out}"
+        return None
+    if op in ("packm", "unpackm"):
+        fmt = f[2]
+        toks = ref_tokens(fmt)
+        parts = [expand(t)[1] for t in toks]
+        specs = [STD[c] for cs in parts for c in cs]
+        sizes = [sp[1] for sp in specs]
+        written_out = " ".join(toks)
+        if op == "packm":
+            vals = vals_of_wire(f[3], specs)
+            refs = [_struct_ref(lambda: struct.pack(t, *vals[i:j])) if len(vals) >= j else None for t, i, j in _slices(toks, parts)]
+            if any(r is None for r in refs) or len(vals) != len(specs):
+                return None if out == "err" else f"pack({fmt!r}, {vals!r}): struct.pack refuses a part, expected an exception, got {out}"
+            exp = "ok " + hexwire(b"".join(refs))
+            if out != exp:
+                return f"pack({fmt!r}, {vals!r}).bytes: struct.pack of the format written out ({written_out}) gives {exp}, got {out}"
+            if extra["again"] != exp:
+                return f"pack({fmt!r}, …) evaluated again gives {extra['again']}, expected {exp}"
+            if extra["unpack"] != "ok " + canon_list(vals, sizes):
+                return f"unpack({fmt!r}) of the packed object gives {extra['unpack']}, packed values were {canon_list(vals, sizes)}"
+            return None
+        data = unhex(f[3])
+        need = sum(sizes)
+        if len(data) < need:
+            return None if out == "err" else f"unpack({fmt!r}) of {len(data)} bytes ({need} needed): expected an exception, got {out}"
+        ref, off = [], 0
+        for t, cs in zip(toks, parts):
+            n = struct.calcsize(t)
+            ref += list(struct.unpack(t, data[off:off + n]))
+            off += n
+        exp = "ok " + canon_list(ref, sizes)
+        if out != exp:
+            return f"Bits(bytes={data.hex()}).unpack({fmt!r}): struct.unpack of the format written out ({written_out}) gives {exp}, got {out}"
+        for k in ("again", "readlist"):
+            if extra[k] != exp:
+                return f"unpack({fmt!r}) route {k} gives {extra[k]}, expected {exp}"
         return None
     if op == "packl":
         fmts = f[2].split(";")
@@ -711,22 +822,29 @@ def oracle(line: str, out: str, extra: dict):
         return None
     if op == "aswap":
         dt, bits = f[2], unwire(f[3])
-        sp = dtype_spec(dt)
-        if sp is None:
-            return None if out == "err" else f"Array({dt!r}): expected an exception, got {out}"
-        k, n, o, bl = sp
-        if n is None or (k == "f" and bl not in (16, 32, 64)):
+        bl = dtype_bits(dt)
+        if bl is None:
+            return None if out == "err" else f"Array({dt!r}): not a valid Array dtype, expected an exception, got {out}"
+        if bl % 8:
             return None if out == "err" else f"Array({dt!r}).byteswap() on {bl}-bit items: expected ValueError, got {out}"
         cnt = len(bits) // bl
         body = "".join(bits_of_bytes(bytes_of_bits(bits[i * bl:(i + 1) * bl])[::-1]) for i in range(cnt))
         exp = "ok " + wire(body + bits[cnt * bl:])
         if out != exp:
-            return f"Array({dt!r}, {wire(bits)}).byteswap(): every item byte-reversed gives {exp}, got {out}"
+            return f"Array({dt!r}, {wire(bits)}).byteswap(): every {bl // 8}-byte item byte-reversed gives {exp}, got {out}"
         if extra["twice"] != wire(bits):
             return f"Array.byteswap applied twice gives {extra['twice']}, expected the original {wire(bits)}"
         if "opp_exact" in extra and extra["opp_exact"] != "ok " + extra["before_exact"]:
             return (f"after byteswap the opposite-endian dtype {_opposite(dt)!r} reads {extra['opp_exact']}, "
                     f"{dt!r} read {extra['before_exact']} before")
+        if len(f) > 4:                                      # the data is struct.pack('>' + k*code, …) viewed through dt
+            c = f[4]
+            d = bytes_of_bits(bits[:cnt * bl])
+            k = len(d) // STD[c][1]
+            le = struct.pack("<%d%s" % (k, c), *struct.unpack(">%d%s" % (k, c), d))
+            if unwire(out[3:])[:cnt * bl] != bits_of_bytes(le):
+                return (f"data packed with '>{c}' viewed as Array({dt!r}) byteswaps to {out}, "
+                        f"the '<{c}' encoding is {bits_of_bytes(le)}")
         return None
     if op == "aext":
         dt, tc, isz = f[2], f[4], int(f[5])
@@ -795,6 +913,8 @@ def model_line(line):
     f = line.split(SEP)
     if f[1] == "bswap":
         del f[2]                                            # the class is not part of the model
+    if f[1] == "aswap" and len(f) > 4:
+        del f[4]                                            # the struct code the data was made with
     return SEP.join(f)
 
 
@@ -1222,10 +1342,94 @@ def part_vals_like(rng, fmt):
     return [_rand_val(rng, *STD[c]) for c in expand(fmt)[1]]
 
 
+SWAP_FAMILIES = (["bytes%d" % n for n in (1, 2, 3, 4, 8, 16)]
+                 + ["hex%d" % n for n in (8, 16, 24, 32, 64)] + ["bin%d" % n for n in (8, 16, 24, 64)]
+                 + ["oct%d" % n for n in (24, 48)] + ["bits%d" % n for n in (8, 16, 32, 64, 128)]
+                 + ["uint%d" % n for n in (8, 16, 24, 32, 40, 48, 56, 64, 128)] + ["int%d" % n for n in (8, 16, 24, 32, 64)]
+                 + ["uintbe16", "intle24", "uintne32", "intbe64", "uintle64", "float16", "float32", "float64",
+                    "floatle16", "floatne32", "floatle64"])
+SWAP_ODD = ["hex4", "hex12", "hex20", "bin1", "bin5", "bin12", "oct3", "oct12", "oct21", "bits7", "bits9", "bool1", "uint12",
+            "int7", "uint63"]
+SWAP_INVALID = ["bytes0", "hex0", "hex6", "oct8", "oct16", "bool2", "bytes", "hex", "bits", "uint0", "float8"]
+
+
+def gen_swap_families(rng, big):
+    """Array.byteswap for every fixed-length dtype family (bytesN counts BYTES, the others bits)."""
+    for dt in SWAP_FAMILIES:
+        bl = dtype_bits(dt)
+        for cnt in (0, 1, 2, 3, 5):
+            for trail in ((0, 3, bl - 1) if cnt in (1, 3) else (0, 7 % bl)):
+                body = bits_of_bytes(bytes(range(1, cnt * bl // 8 + 1))) if rng.random() < 0.5 else rand_bits(rng, cnt * bl)
+                yield SEP.join(["C18", "aswap", dt, wire(body + rand_bits(rng, trail))])
+        for _ in range(12 if big else 2):
+            yield SEP.join(["C18", "aswap", dt, wire(rand_bits(rng, rng.randint(0, 5) * bl + rng.choice([0, 0, 1, 4, bl - 1])))])
+        # data packed with a big-endian struct code of the same width, viewed through this dtype: byteswap gives the '<' encoding
+        for c in CODES:
+            kind, size = STD[c]
+            if bl != 8 * size:
+                continue
+            k = rng.randint(1, 3)
+            vals = vals_of_wire(",".join(_rand_val(rng, kind, size) for _ in range(k)), [(kind, size)] * k)
+            yield SEP.join(["C18", "aswap", dt, bits_of_bytes(struct.pack(">%d%s" % (k, c), *vals)), c])
+    for dt in SWAP_ODD + SWAP_INVALID:
+        for _ in range(3):
+            yield SEP.join(["C18", "aswap", dt, wire(rand_bits(rng, rng.choice([0, 8, 16, 24, 63, 64])))])
+
+
+def gen_multiplier(rng, big):
+    """N* multipliers, brackets and commas around struct-style tokens with >= 2 different codes; pack AND unpack against
+    struct with the format written out ('@' left out: region)."""
+    def tok(min_codes=2):
+        e = rng.choice("<>=")
+        cs = rng.sample(CODES, rng.randint(min_codes, 3))
+        return e + "".join(_count_spelling(rng, c, rng.choice([1, 1, 1, 2, 3])) for c in cs)
+
+    def item(depth=0):
+        r = rng.random()
+        n = rng.choice([2, 2, 2, 3, 3, 4, 1, 0, 10] if depth == 0 else [2, 3, 1])
+        sp = rng.choice(["", "", "", " "])
+        if r < 0.45:
+            return f"{n}{sp}*{sp}{tok()}"
+        if r < 0.65:
+            return f"{n}*({tok()})"
+        if r < 0.85:
+            return f"{n}*({tok(1)},{sp}{tok(1)})"
+        if r < 0.93 and depth == 0:
+            return f"{n}*({tok(1)},{item(1)})"
+        return tok(1)
+
+    fixed = ["2*<hB", "3*>bHq", "2*(<hB)", "2*<2hB", "2*(<h,>B)", "<b,2*<hB", "0*<hB", "<b,0*(<hB)", "2*(<b,2*>hB)", " 2 * <hB",
+             "1*<hB", "2*(2*(<bH))", "2*=eB", "3*<Bd", "2*>2bH,<q", "10*<bH"]
+    fmts = fixed + [",".join(item() for _ in range(rng.choice([1, 1, 1, 2, 3]))) for _ in range(5000 if big else 650)]
+    for fmt in fmts:
+        toks = ref_tokens(fmt)
+        codes = [c for t in toks for c in expand(t)[1]]
+        if len(codes) > 60:
+            continue
+        vals = []
+        for c in codes:
+            kind, size = STD[c]
+            vals.append(_tok(kind, rng.choice(_float_patterns(size) if kind == "f" else _int_limits(kind, size)))
+                        if rng.random() < 0.3 else _rand_val(rng, kind, size))
+        yield SEP.join(["C18", "packm", fmt, ",".join(vals) or "-"])
+        need = sum(STD[c][1] for c in codes)
+        data = bytes(rng.getrandbits(8) for _ in range(need))
+        r = rng.random()
+        if r < 0.08 and need:
+            data = data[:rng.randrange(need)]
+        elif r < 0.2:
+            data += bytes(rng.getrandbits(8) for _ in range(rng.randint(1, 5)))
+        yield SEP.join(["C18", "unpackm", fmt, hexwire(data)])
+        if rng.random() < 0.05 and vals:                    # arity error
+            yield SEP.join(["C18", "packm", fmt, ",".join(vals[:-1]) or "-"])
+
+
 def gen(rng, tier):
     big = tier != "quick"
     yield from gen_struct(rng, big)
     yield from gen_listform(rng, big)
+    yield from gen_multiplier(rng, big)
+    yield from gen_swap_families(rng, big)
     yield from gen_unrepresentable(rng, big)
     yield from gen_interp(rng, big)
     yield from gen_enc(rng, big)
